@@ -142,4 +142,4 @@ package server
 // what HandleMsg4/6 put back (precondition cap(buf) >= 65536), and what Get is assumed to return
 //@ func init$1
 //@   modifies nothing
-//@   ensures typeis(ret, *[]byte) && ret.(*[]byte) != nil && cap(*ret.(*[]byte)) >= 65536
+//@   ensures[C01,C16:pool-buffers-have-full-capacity] typeis(ret, *[]byte) && ret.(*[]byte) != nil && cap(*ret.(*[]byte)) >= 65536
